@@ -125,7 +125,13 @@ Print Assumptions C09_roundtrip_raw_clause.
     representable range is reproduced with an error BELOW one factor step", is false for exact
     reals on the faithful model: scale 0.1, offset -40, unsigned 16 bits, no declared range,
     p = -39.6: FromPhysical gives 3.99999999999998, the setter stores 3, the getter returns -39.7,
-    |back - p| = 1.0000000000000142 steps (truncation plus the rounding of 3*0.1-40). *)
+    |back - p| = 1.0000000000000142 steps (truncation plus the rounding of 3*0.1-40).
+    So the FULL clause of the property is REFUTED for the unchanged code: this is the known finding
+    C09-physical-roundtrip-truncation of known_findings.json (not fixed: a rounding setter would
+    change documented behaviour).  The check evaluates this one-step clause on every in-class
+    observation (clause roundtrip-physical-one-step) and reports its failures once as KNOWN-FINDING;
+    the proved replacement is the two-step bound [C09_roundtrip_physical_partial] below (clause
+    roundtrip-physical-two-steps, whose failure is an ordinary violation). *)
 Theorem C09_roundtrip_physical_refuted :
   c09_class_f w_scale w_offset fzero fzero = true /\ resolves_f w_scale w_offset = true /\
   in_range_f fzero fzero w_p = true /\ in_representable_f w_scale w_offset false 16 w_p = true /\
